@@ -1,9 +1,15 @@
-(* C02 -- Every individual rewrite rule preserves program behaviour (control-flow tranche).
-   Property theorems only; every proof is `exact <lemma>`; Print Assumptions under each. *)
+(* C02 -- Every individual rewrite rule preserves program behaviour.
+   Property theorems only; every proof is `exact <lemma>`; Print Assumptions under each.
+   One module per tranche (the tranches define their own MiniPy fragments with overlapping names):
+   Flow = control-flow rules (MiniPyModel / RulesFlowModel). *)
 From Coq Require Import List Bool Arith.
+Require Pyrefact.MiniPyModel Pyrefact.MiniPyProofs Pyrefact.RulesFlowModel Pyrefact.RulesFlowProofs
+        Pyrefact.RulesFlowProofs2.
+
+Module Flow.
 Import ListNotations.
-Require Import Pyrefact.MiniPyModel Pyrefact.MiniPyProofs Pyrefact.RulesFlowModel Pyrefact.RulesFlowProofs
-               Pyrefact.RulesFlowProofs2.
+Import Pyrefact.MiniPyModel Pyrefact.MiniPyProofs Pyrefact.RulesFlowModel Pyrefact.RulesFlowProofs
+       Pyrefact.RulesFlowProofs2.
 
 (* T02.0  core.is_blocking (as modelled on the fragment) is sound for the executable semantics: a block
    with a blocking statement never completes normally, whatever the oracle answers. *)
@@ -149,3 +155,15 @@ Example T02_10_partial_nontrivial :
   move_before_loop_model p =
     [SAssign 0 (RVal (VObj true 0)); SLoop (HFor (IKnown 3)) [SEv 1 [1]; SEv 2 [0]] []; SEv 3 [0]].
 Proof. exact move_before_loop_partial_nontrivial. Qed.
+
+(* T02.11  independence from the scheduling of processing.fix (which sites are rewritten in which pass, in which
+   order, how many passes): every program reachable from p by applying the unconditional local rewrites
+   (dead if/while, redundant else, if/else swap with negated test, deletion after a blocking statement,
+   moving a common last statement behind the `if`, appending `continue`) at ANY positions of the tree, in any
+   order, any number of times -- and backwards -- is equivalent to p. *)
+Theorem T02_11_any_schedule_sound :
+  forall p q, ctx local_rule p q -> equiv p q.
+Proof. exact any_schedule_sound. Qed.
+Print Assumptions T02_11_any_schedule_sound.
+
+End Flow.
